@@ -47,6 +47,79 @@ def rnd_instr(rng, n):
     raise ValueError(n)
 
 
+def _cli():
+    import warnings
+    try:
+        with warnings.catch_warnings():
+            warnings.simplefilter("ignore")
+            from architecture_simulator.cli import cli
+        return cli
+    except Exception:
+        return None
+
+
+def texts_at(sim, addr):
+    """every place the simulator prints the instruction stored at addr -> {surface: text}"""
+    out = {}
+    im = sim.state.instruction_memory
+    out["get_representation"] = dict(im.get_representation()).get(addr)
+    for (a, _), text, _stage in sim.get_instruction_memory_entries():
+        if a == addr:
+            out["instruction-memory-entries"] = text
+    cli = _cli()
+    if cli is None:
+        return out
+    for line in cli.instr_mem_repr(sim).splitlines():
+        if line.startswith(f"{addr:08X}"):
+            out["cli-listing"] = line[8:].strip()
+    return out
+
+
+def pipeline_texts(src, addr):
+    """the pipeline view and the CLI status line for the instruction at addr (five-stage mode)"""
+    from architecture_simulator.simulation.riscv_simulation import RiscvSimulation
+    out = {}
+    sim = RiscvSimulation(mode="five_stage_pipeline")
+    sim.load_program(src)
+    cli = _cli()
+    for _ in range(addr // 4):
+        sim.step()
+    if cli is not None and sim.state.program_counter == addr:
+        for line in cli.display(sim, "hex").splitlines():
+            if "Instruction at PC:" in line:
+                out["cli-instruction-at-pc"] = line.split("Instruction at PC:", 1)[1].strip()
+    try:
+        sim.step()
+    except Exception:
+        return out
+    reg = sim.state.pipeline.pipeline_registers[0]
+    if reg.address_of_instruction == addr:
+        out["pipeline-register"] = str(reg.instruction)
+        if cli is not None:
+            for line in cli.five_stage_pipeline_repr(sim.state.pipeline.pipeline_registers).splitlines():
+                if line.startswith("IF:"):
+                    out["cli-pipeline-view"] = line[3:].strip()
+    return out
+
+
+def denotes(text, addr, fields, cache):
+    """does the printed text (possibly followed by further columns) assemble at addr to the instruction with these
+    fields?  Tries the text as it stands, then without its last one / two blank-separated columns."""
+    if text is None:
+        return False
+    toks = text.split()
+    for drop in (0, 1, 2):
+        if drop >= len(toks):
+            break
+        cand = " ".join(toks[:len(toks) - drop])
+        if cand not in cache:
+            sim, err = RA.impl_load("\n".join(["nop"] * (addr // 4) + [cand]))
+            cache[cand] = None if err is not None else instr_fields(sim.state.instruction_memory.read_instruction(addr))
+        if cache[cand] == fields:
+            return True
+    return False
+
+
 class Repr(Slice):
     name = "repr"
 
@@ -56,7 +129,10 @@ class Repr(Slice):
         t = rnd_instr(rng, n)
         if fmt_kind(n) == "J":
             t[3] = t[2] + addr
-        return {"instr": t, "addr": addr}
+        alt = rnd_instr(rng, n)             # same mnemonic, other operands: patched in afterwards
+        if fmt_kind(n) == "J":
+            alt[3] = alt[2] + addr
+        return {"instr": t, "addr": addr, "alt": alt}
 
     def run(self, case, model):
         t, addr = case["instr"], case["addr"]
@@ -76,6 +152,25 @@ class Repr(Slice):
                 findings.append(("violation", f"{text!r} at address {addr} re-assembles to {instr_fields(back)} ({back!r}), original {instr_fields(ins)}"))
             if m[1][0] != 0 or list(m[1][1]) != instr_fields(back):
                 findings.append(("disagreement", f"model re-assembly of {text!r}: {m[1]} vs implementation {instr_fields(back)}"))
+            # every OTHER place that prints the stored instruction must denote it too
+            cache = {text: instr_fields(back)}
+            surf = texts_at(sim, addr)
+            if addr <= 200:
+                surf.update(pipeline_texts(src, addr))
+            for name, tx in surf.items():
+                cl.add("surface:" + name)
+                if tx != text and not denotes(tx, addr, instr_fields(ins), cache):
+                    findings.append(("violation", f"{name} prints {tx!r} for the instruction {text!r} at address {addr}"))
+            # ... and still does after the instruction at that address has been replaced
+            if case.get("alt"):
+                alt = make_instr(case["alt"])
+                sim.state.instruction_memory.write_instruction(addr, alt)
+                cache2 = {}
+                for name, tx in texts_at(sim, addr).items():
+                    if tx != repr(alt) and not denotes(tx, addr, instr_fields(alt), cache2):
+                        findings.append(("violation", f"after write_instruction({addr}, {alt!r}) {name} prints {tx!r}"))
+                if case["alt"] != t:
+                    cl.add("patched")
         cl.add("mn:" + MNEMONICS[t[0]])
         if any(isinstance(x, int) and x not in (0,) for x in t[3:4]) or addr:
             cl.add("nontrivial")
@@ -85,7 +180,8 @@ class Repr(Slice):
         return "nontrivial" in classes
 
     def required_classes(self, tier):
-        return ["mn:" + MNEMONICS[n] for n in ALL]
+        return ["mn:" + MNEMONICS[n] for n in ALL] + ["patched", "surface:get_representation", "surface:instruction-memory-entries",
+                                                    "surface:pipeline-register"]
 
 
 class ListingFixpoint(Slice):
